@@ -17,5 +17,5 @@ done
 wait
 for i in $(seq 0 $((N-1))); do git -C /repo worktree remove --force /tmp/mw-$i >/dev/null 2>&1; done
 git -C /repo worktree prune
-cat /root/vmlog/par-*.log | grep -v conda | grep -c "OK-caught\|OK-silent" | sed 's/^/as expected: /'
-cat /root/vmlog/par-*.log | grep -v "conda\|OK-caught\|OK-silent\|as expected" | head -40
+cat /root/vmlog/par-[0-9]*.log | grep -v conda | grep -c "OK-caught\|OK-silent" | sed 's/^/as expected: /'
+cat /root/vmlog/par-[0-9]*.log | grep -v "conda\|OK-caught\|OK-silent\|as expected" | head -40
